@@ -28,6 +28,8 @@ def _lit(n):
         return -v if v is not None else None
     if n["k"] == "DeclRefExpr" and n.get("v") is not None:
         return n.get("v")
+    if n["k"] in ("GNUNullExpr", "CXXNullPtrLiteralExpr"):
+        return 0
     return None
 
 
